@@ -128,7 +128,16 @@ Why `replace_crlf` of the WHOLE stream is `replace_crlf` of every test's own byt
 is glued to the payload, carries no CR and starts with `~`, so a CR at the end of an unterminated
 payload pairs with nothing (`Lemmas/TestRunScript.lean`: `spec_scriptStream`), and replacing CR LF
 creates no divider start (`infix_of_infix_spec`).  More than 2^64 test cases: the index of a divider
-is parsed as `usize`, the executor fails (`iterLines_chunk_big`). -/
+is parsed as `usize`, the executor fails (`iterLines_chunk_big`).
+
+Assumption that stays (it is the shape of `runs`): every test case's expression is a COMPLETE command
+with a run of its own.  An expression that bash continues over scrut's footer (it ends in `|`, `&&`,
+a backslash, inside a quote …) has none.  What the script text guarantees for those is
+`Props/C13.lean` (`C13_script_exit_code_taken_by_assignment`, `C13_script_dividers_do_not_read_status`:
+the status is read by the assignment `__SCRUT_EXIT_CODE=$?` directly behind the expression, never by
+a divider `echo`, so a swallowed or skipped assignment leaves the divider without an exit code --
+an execution error, not a success); what bash makes of it is exercised with the real binary by the
+harness stream `e2e-script-incomplete-expression-exhaustive`. -/
 theorem C05_script_no_false_success {tests : List Test} {runs : List SRan}
     {outcomes : List Outcome} {status i : Nat} (h : runScript tests runs = .report outcomes status)
     (hi : (i, Verdict.ok) ∈ outcomes) :
